@@ -14,6 +14,7 @@ while i < len(a):
     elif a[i] == "--opt": k, v = a[i+1].split("=", 1); opts.append([k, v]); i += 2
     elif a[i] == "--sig": sig = a[i+1]; i += 2
     else: i += 1
+chk.build()
 batch = {"engine": engine, "opts": opts}
 r = chk.run_one(engine, prop, seed, "quick", opts)
 vs = r.get("violations", [])
